@@ -129,7 +129,7 @@ pub fn write_event(
     logger_key: &str,
 ) {
     let event_message = if message.len() > MAX_MESSAGE_LENGTH {
-        message[..MAX_MESSAGE_LENGTH].to_string()
+        misc_helpers::truncate_at_char_boundary(&message, MAX_MESSAGE_LENGTH).to_string()
     } else {
         message.to_string()
     };
